@@ -556,14 +556,20 @@ func uniform(w []bool) bool {
 // generate enumerates the API histories. Bounds (deviations from the canonical schedule):
 //
 //	quick:    length <= 3; responder "first": bound 1; responder "last": canonical schedule
-//	thorough: length <= 4; responder "first": length <= 2 (and RequestNext x3 pipelined) bound 2,
-//	          length 3 bound 1, length 4 bound 1 (chain-sync: every wait pattern, the other
-//	          protocols: all-pipelined and all-waited); responder "last": length <= 3 bound 1,
-//	          length 4 canonical; racing callers: 2 calls bound 2, 3 calls bound 1, 4 calls bound 1
-//	          for chain-sync (canonical otherwise); non-permitted first message bound 2, after a
-//	          waited prefix bound 1
+//	thorough: length <= 4;
+//	  responder "first": chain-sync length <= 2 and RequestNext x3 pipelined: bound 2; the other
+//	  protocols: single calls and the first two pipelined pairs: bound 2; everything else of
+//	  length <= 3 bound 1; length 4 bound 1 (chain-sync: every wait pattern, the other protocols:
+//	  all-pipelined and all-waited);
+//	  responder "last": length <= 2 bound 1, longer canonical;
+//	  racing callers: 2 calls bound 2 (chain-sync all, others the first pair), 3 calls bound 1,
+//	  4 calls bound 1 for chain-sync (canonical otherwise);
+//	  non-permitted first message bound 2 (chain-sync all, others the first), after a waited
+//	  prefix bound 1
+//
+// The per-scenario wall budgets are only a guard against runaway scenarios on a loaded machine.
 func generate(thorough bool) []e1lib.Scenario {
-	var scs []e1lib.Scenario
+	var heavy, light []e1lib.Scenario
 	maxLen := 3
 	if thorough {
 		maxLen = 4
@@ -576,10 +582,15 @@ func generate(thorough bool) []e1lib.Scenario {
 			add := func(sc scen, bound int) {
 				s := scenario(id, sc, last)
 				s.MinB, s.MaxB = bound, bound
-				s.Budget = []time.Duration{20 * time.Second, 60 * time.Second, 400 * time.Second}[bound]
-				scs = append(scs, s)
+				s.Budget = []time.Duration{2 * time.Minute, 10 * time.Minute, time.Hour}[bound]
+				if bound == 2 {
+					heavy = append(heavy, s)
+				} else {
+					light = append(light, s)
+				}
 			}
 			// one caller: every conforming history, every pattern of pipelined / waited calls
+			pairs := 0
 			for _, h := range m.conforming(maxLen) {
 				for _, w := range gaps(len(h)) {
 					sc := scen{kind: "seq", calls: h, wait: w}
@@ -591,11 +602,14 @@ func generate(thorough bool) []e1lib.Scenario {
 						add(sc, 1)
 					case n == 4 && !chainSync && !uniform(w):
 						// not generated
-					case last && n == 4:
+					case last && n >= 3:
 						add(sc, 0)
 					case last:
 						add(sc, 1)
-					case n <= 2:
+					case n <= 2 && chainSync, n == 1:
+						add(sc, 2)
+					case n == 2 && !w[1] && pairs < 2:
+						pairs++
 						add(sc, 2)
 					case n == 3 && chainSync && !w[1] && !w[2] && h[0] == h[1] && h[1] == h[2] && m.alpha[h[0]].Label == "RequestNext":
 						add(sc, 2)
@@ -605,7 +619,7 @@ func generate(thorough bool) []e1lib.Scenario {
 				}
 			}
 			// two racing callers
-			for _, pr := range m.racePairs(maxLen) {
+			for i, pr := range m.racePairs(maxLen) {
 				sc := scen{kind: "race"}
 				for g := 0; g < 2; g++ {
 					for _, c := range pr[g] {
@@ -623,8 +637,10 @@ func generate(thorough bool) []e1lib.Scenario {
 					add(sc, 0)
 				case last || n >= 3:
 					add(sc, 1)
-				default:
+				case chainSync || i == 0:
 					add(sc, 2)
+				default:
+					add(sc, 1)
 				}
 			}
 			// a non-permitted message: first of the history, or after a conforming prefix whose
@@ -644,16 +660,21 @@ func generate(thorough bool) []e1lib.Scenario {
 					continue
 				}
 				if m.run(append(append([]int(nil), pre...), bad[0])).badInDone {
-					bad = bad[:1] // after termination every letter is non-permitted: one suffices
+					// after termination every letter is non-permitted: one letter after the
+					// shortest terminating history suffices
+					if len(pre) > 1 {
+						continue
+					}
+					bad = bad[:1]
 				}
-				for _, x := range bad {
+				for i, x := range bad {
 					calls := append(append([]int(nil), pre...), x)
 					w := make([]bool, len(calls))
 					for k := 1; k < len(calls); k++ {
 						w[k] = true
 					}
 					sc := scen{kind: "illegal", calls: calls, wait: w}
-					if thorough && len(pre) == 0 {
+					if thorough && len(pre) == 0 && (chainSync || i == 0) {
 						add(sc, 2)
 					} else {
 						add(sc, 1)
@@ -662,7 +683,20 @@ func generate(thorough bool) []e1lib.Scenario {
 			}
 		}
 	}
-	return scs
+	// the long scenarios are spread evenly over the list (the driver hands out contiguous batches)
+	if len(heavy) == 0 {
+		return light
+	}
+	var scs []e1lib.Scenario
+	stride := len(light)/len(heavy) + 1
+	for i, l := range light {
+		if i%stride == 0 && len(heavy) > 0 {
+			scs = append(scs, heavy[0])
+			heavy = heavy[1:]
+		}
+		scs = append(scs, l)
+	}
+	return append(scs, heavy...)
 }
 
 func TestC12(t *testing.T) {
